@@ -58,9 +58,14 @@ static void do_pop_blocking(int t) {
   g_popped((long)r);
   g_ret(h, (long)r);
 }
+static NS void g_size(size_t sz, int at_rest) {
+  if (sz > (size_t)cap) sim_violation("C16-over-capacity", "lockfree_ring_buffer_size reports %zu items in a buffer of capacity %d", sz, cap);
+  if (at_rest && sz != 0) sim_violation("C16-size-at-rest", "lockfree_ring_buffer_size reports %zu after the final drain", sz);
+}
 static void* thr(void* p) {
   const int t = (int)(intptr_t)p;
   int seq = 0;
+  g_size(lockfree_ring_buffer_size(rb), 0);
   if (blocking) {
     for (int i = 0; i < bcount[t]; i++) {
       if (t & 1) do_pop_blocking(t);
@@ -71,6 +76,7 @@ static void* thr(void* p) {
   for (int i = 0; i < prog[t].n; i++) {
     if (prog[t].op[i]) do_push(t, ((long)(t + 1) << 8) | (++seq));
     else do_pop(t);
+    g_size(lockfree_ring_buffer_size(rb), 0);
   }
   return NULL;
 }
@@ -111,7 +117,9 @@ void h_run(void) {
   for (int t = 0; t < nth; t++) pthread_join(th[t], NULL);
   while (do_pop(nth) != RES_EMPTY) {
   }
+  g_size(lockfree_ring_buffer_size(rb), 1);
   if (npopped != npushed) sim_violation("C16-lost-value", "%d values pushed successfully, %d popped after the final drain", npushed, npopped);
   h_lin_verdict("C16-not-linearizable");
+  lockfree_ring_buffer_destroy(rb);
   sim_finish_ok();
 }
